@@ -10,7 +10,7 @@ exactly when `Generated.WaitShape` says that the source has such a call before t
   `waitForAcknowledge`; then the select on the response.
 * `Client.DoObserve` = `limitParallelRequests.DoObserve`, then `NewObservation`: write (same ACK wait), then the select
   on the first notification.
-* `Client.Ping`: `AsyncPing`, then the select on the pong (which the socket reader handles inline).
+* `Conn.Ping` / `Client.Ping`: `asyncPing` / `AsyncPing`, then the select on the pong (which the socket reader handles inline).
 
 A hand-over may also be made by the *caller* of the function that holds the blocking construct (`Generated.WaitShape.handovers`,
 recognised per connection package): `Conn.Ping` before `Client.Ping`, `Conn.doObserve` before `NewObservation`, and the hook a
@@ -72,9 +72,27 @@ def observeProg (udp : Bool) (epKey epLimit limit k : Nat) : List Act :=
   rep (handed udp "Conn.doObserve" "Handler.NewObservation") ++ [.send k] ++ ackPart udp k ++
   rep (preceded "Handler.NewObservation" "select") ++ [.wait (.delivered k) (wakesOnClose "Handler.NewObservation")] ++ [.endCall k]
 
-/-- `cc.Ping(ctx)`: (`Conn.Ping`'s hand-over, if the connection has one,) `AsyncPing` writes the ping, then the select on the pong -/
+/-- the transport's own `Conn.Ping` waits for the pong itself (it has a select of its own in the connection's file); otherwise
+    it is a wrapper of `Client.Ping`, or absent (then `Client.Ping` is promoted) -/
+def pingOwnWait (udp : Bool) : Bool :=
+  waits.any (fun w => w.file == connFile udp && w.func == "Conn.Ping" && w.kind == "select")
+
+/-- the selects of `Conn.Ping` in this transport's file are all preceded by a replacement request -/
+def pingOwnPreceded (udp : Bool) : Bool :=
+  (waits.filter (fun w => w.file == connFile udp && w.func == "Conn.Ping" && w.kind == "select")).all (·.precededByReplace)
+
+/-- … and have the connection's context among their cases -/
+def pingOwnWakesOnClose (udp : Bool) : Bool :=
+  (waits.filter (fun w => w.file == connFile udp && w.func == "Conn.Ping" && w.kind == "select")).all
+    (fun w => w.cases.any (fun c => c == "<-cc.Context().Done()" || c == "<-cc.session.Context().Done()"))
+
+/-- `cc.Ping(ctx)`: (the hand-over of `Conn.Ping`, if the connection has one,) `asyncPing` / `AsyncPing` writes the ping, then the
+    select on the pong — in `Conn.Ping` itself when it has one, else in `Client.Ping` -/
 def pingProg (udp : Bool) : List Act :=
-  rep (handed udp "Conn.Ping" "Client.Ping") ++ [.send 0] ++
-  [.startCall 0 10000] ++ rep (preceded "Client.Ping" "select") ++ [.wait .ponged (wakesOnClose "Client.Ping")] ++ [.endCall 0]
+  if pingOwnWait udp then
+    rep (pingOwnPreceded udp) ++ [.send 0] ++ [.startCall 0 10000] ++ [.wait .ponged (pingOwnWakesOnClose udp)] ++ [.endCall 0]
+  else
+    rep (handed udp "Conn.Ping" "Client.Ping") ++ [.send 0] ++
+    [.startCall 0 10000] ++ rep (preceded "Client.Ping" "select") ++ [.wait .ponged (wakesOnClose "Client.Ping")] ++ [.endCall 0]
 
 end CoapVerif.Model.ReaderPrograms
